@@ -39,67 +39,11 @@ func runC17(w *core.World, r *core.Report) {
 		r.Undecided("R1", "engine.(*DefaultEngine).Exec: input parameter", ex.Pos(), "no []byte parameter")
 		return
 	}
-	isInput := func(v ssa.Value) bool { return core.Strip(v) == ssa.Value(input) }
-	isLenInput := func(v ssa.Value) bool {
-		for _, s := range core.Sources(v) {
-			if c, ok := s.(*ssa.Call); ok && core.IsCallTo(c, "builtin.len") && isInput(c.Call.Args[0]) {
-				return true
-			}
-		}
-		return false
-	}
 	limit, okL := constOf(w, r, "state", "INPUT_LIMIT")
 	if !okL {
 		return
 	}
-	var accFmt, accLen []core.Edge
-	nfmt, nlen := 0, 0
-	for _, b := range ex.Blocks {
-		for _, in := range b.Instrs {
-			switch t := in.(type) {
-			case *ssa.Call:
-				if core.IsCallTo(t, "vm.ValidInput") {
-					okArg := isInput(t.Call.Args[0])
-					r.Check(okArg, "R2", "engine.(*DefaultEngine).Exec: ValidInput operand", t.Pos(), "the Exec parameter", "the format test is applied to something other than the request's input")
-					if okArg {
-						nfmt++
-						for _, ce := range core.NilTestEdges(callErr(t)) {
-							if ce.Val {
-								accFmt = append(accFmt, ce.E)
-							}
-						}
-					}
-				}
-				if core.IsCallTo(t, "state.(*State).SetInput") && isInput(core.CallArgs(t)[1]) {
-					for _, ce := range core.NilTestEdges(callErr(t)) {
-						if ce.Val {
-							accLen = append(accLen, ce.E)
-						}
-					}
-				}
-			case *ssa.BinOp:
-				x, op, c, isC := core.CmpConst(t)
-				if !isC || !isLenInput(x) {
-					continue
-				}
-				tt := struct{ Op token.Token }{op}
-				t2 := t
-				_ = t2
-				switch {
-				case c == 0 && (tt.Op == token.GTR || tt.Op == token.NEQ):
-					accFmt = append(accFmt, core.EdgesWhere(t, false)...) // empty input needs no format test
-				case c == 0 && tt.Op == token.EQL:
-					accFmt = append(accFmt, core.EdgesWhere(t, true)...)
-				case c == limit && tt.Op == token.GTR, c == limit+1 && tt.Op == token.GEQ:
-					nlen++
-					accLen = append(accLen, core.EdgesWhere(t, false)...)
-				case c == limit && tt.Op == token.LEQ, c == limit+1 && tt.Op == token.LSS:
-					nlen++
-					accLen = append(accLen, core.EdgesWhere(t, true)...)
-				}
-			}
-		}
-	}
+	accFmt, accLen, nfmt, _ := acceptanceEdges(w, r, ex, input, limit, 0)
 	if nfmt == 0 {
 		r.Bad("R1", "engine.(*DefaultEngine).Exec: format refusal point", ex.Pos(), "Exec does not apply vm.ValidInput to its input")
 	}
@@ -157,6 +101,7 @@ func runC17(w *core.World, r *core.Report) {
 	r.Floor("R1", "effectful sites in Exec", neff, 3)
 
 	// ---- R4 -----------------------------------------------------------------------------------
+	roles := resolveEngineRoles(w)
 	if fl := anchor(w, r, "engine", "(*DefaultEngine).Flush"); fl != nil {
 		var execdTrue []core.Edge
 		for _, b := range fl.Blocks {
@@ -171,7 +116,7 @@ func runC17(w *core.World, r *core.Report) {
 		n := 0
 		for _, c := range core.Calls(fl) {
 			nm := core.CallName(c)
-			if !(nm == "vm.(*Vm).Render" || nm == "io.WriteString" || nm == "io.Writer.Write" || strings.HasPrefix(nm, "fmt.Fprint") || nm == "engine.(*DefaultEngine).reset") {
+			if !(nm == "vm.(*Vm).Render" || nm == "io.WriteString" || nm == "io.Writer.Write" || strings.HasPrefix(nm, "fmt.Fprint") || (roles.ResetFn != nil && core.StaticCallee(c) == roles.ResetFn)) {
 				continue
 			}
 			n++
@@ -261,7 +206,7 @@ func pureHelper(g *ssa.Function, depth int, seen map[*ssa.Function]bool) bool {
 			case *ssa.Call:
 				n := core.CallName(t)
 				switch {
-				case n == "context.WithValue", strings.HasPrefix(n, "logging."), strings.HasPrefix(n, "fmt.Sprint"), strings.HasPrefix(n, "builtin."),
+				case n == "context.WithValue", strings.HasPrefix(n, "logging."), strings.HasPrefix(n, "fmt.Sprint"), n == "fmt.Errorf", n == "errors.New", n == "vm.ValidInput", strings.HasPrefix(n, "builtin."),
 					strings.HasPrefix(n, "unicode/utf8."), strings.HasPrefix(n, "bytes."), strings.HasPrefix(n, "strings."), strings.HasPrefix(n, "strconv."):
 				default:
 					if h := core.StaticCallee(t); h == nil || !pureHelper(h, depth+1, seen) {
@@ -272,4 +217,105 @@ func pureHelper(g *ssa.Function, depth int, seen map[*ssa.Function]bool) bool {
 		}
 	}
 	return true
+}
+
+// acceptanceEdges lists the CFG edges of fn on which the input value `input` is known to have
+// passed the format test (vm.ValidInput without error, or the empty input) and the length test
+// (len(input) against the limit, or State.SetInput without error). A call of a value-building
+// helper of the module with `input` as argument counts on its error==nil edges for whichever of
+// the two tests the helper itself enforces on every one of its success returns (depth 2).
+func acceptanceEdges(w *core.World, r *core.Report, fn *ssa.Function, input ssa.Value, limit int64, depth int) (accFmt, accLen []core.Edge, nfmt, nlen int) {
+	isInput := func(v ssa.Value) bool { return core.Strip(v) == input }
+	isLenInput := func(v ssa.Value) bool {
+		for _, s := range core.Sources(v) {
+			if c, ok := s.(*ssa.Call); ok && core.IsCallTo(c, "builtin.len") && isInput(c.Call.Args[0]) {
+				return true
+			}
+		}
+		return false
+	}
+	for _, b := range fn.Blocks {
+		for _, in := range b.Instrs {
+			switch t := in.(type) {
+			case *ssa.Call:
+				if core.IsCallTo(t, "vm.ValidInput") {
+					okArg := isInput(t.Call.Args[0])
+					if depth == 0 {
+						r.Check(okArg, "R2", core.QName(fn)+": ValidInput operand", t.Pos(), "the Exec parameter", "the format test is applied to something other than the request's input")
+					}
+					if okArg {
+						nfmt++
+						for _, ce := range core.NilTestEdges(callErr(t)) {
+							if ce.Val {
+								accFmt = append(accFmt, ce.E)
+							}
+						}
+					}
+					continue
+				}
+				if core.IsCallTo(t, "state.(*State).SetInput") && isInput(core.CallArgs(t)[1]) {
+					for _, ce := range core.NilTestEdges(callErr(t)) {
+						if ce.Val {
+							accLen = append(accLen, ce.E)
+						}
+					}
+					continue
+				}
+				// validating helper
+				g := core.StaticCallee(t)
+				if g == nil || depth >= 2 || len(g.Blocks) == 0 || callErr(t) == nil || !pureHelper(g, 0, map[*ssa.Function]bool{}) {
+					continue
+				}
+				for i, a := range core.CallArgs(t) {
+					if !isInput(a) || i >= len(g.Params) {
+						continue
+					}
+					gf, gl, gnf, gnl := acceptanceEdges(w, r, g, g.Params[i], limit, depth+1)
+					okEdges := func() []core.Edge {
+						var out []core.Edge
+						for _, ce := range core.NilTestEdges(callErr(t)) {
+							if ce.Val {
+								out = append(out, ce.E)
+							}
+						}
+						return out
+					}
+					enforces := func(edges []core.Edge) bool {
+						if len(edges) == 0 {
+							return false
+						}
+						cut := core.NewCut().AddEdge(edges...)
+						hit, _ := core.Reach(core.Entry(g), isSuccessReturnPred(g), cut)
+						return hit == nil
+					}
+					if enforces(gf) {
+						nfmt += gnf
+						accFmt = append(accFmt, okEdges()...)
+					}
+					if enforces(gl) {
+						nlen += gnl
+						accLen = append(accLen, okEdges()...)
+					}
+				}
+			case *ssa.BinOp:
+				x, op, c, isC := core.CmpConst(t)
+				if !isC || !isLenInput(x) {
+					continue
+				}
+				switch {
+				case c == 0 && (op == token.GTR || op == token.NEQ):
+					accFmt = append(accFmt, core.EdgesWhere(t, false)...) // empty input needs no format test
+				case c == 0 && op == token.EQL:
+					accFmt = append(accFmt, core.EdgesWhere(t, true)...)
+				case c == limit && op == token.GTR, c == limit+1 && op == token.GEQ:
+					nlen++
+					accLen = append(accLen, core.EdgesWhere(t, false)...)
+				case c == limit && op == token.LEQ, c == limit+1 && op == token.LSS:
+					nlen++
+					accLen = append(accLen, core.EdgesWhere(t, true)...)
+				}
+			}
+		}
+	}
+	return
 }
